@@ -122,6 +122,8 @@ def check_new(F, P1):
     E = ExprBuilder(cfg)
     nr1 = False
     label = 0
+    import c03
+    id_roots = set()      # the value that becomes the id of the new lifecycle (`let id = NEXT.fetch_add(..); msg.lifecycle = id; Lifecycle { id, .. }`)
     for b in body.blocks:
         if b.cleanup:
             continue
@@ -131,9 +133,19 @@ def check_new(F, P1):
                 if 'nr_msgs' in fields:
                     o = Operand(s.rv['ops'][fields.index('nr_msgs')])
                     nr1 = E.operand(o) == ('const', 1)
+                if 'id' in fields:
+                    r = c03.ssa_root(cfg, Operand(s.rv['ops'][fields.index('id')]))
+                    if r is not None and r > body.arg_count:
+                        id_roots.add(r)
+    for b in body.blocks:
+        if b.cleanup:
+            continue
+        for s in b.stmts:
             if s.k == 'assign' and effects.field_path(s.place) == 'lifecycle':
                 e = E.rvalue(s.rv)
                 if isinstance(e, tuple) and e[0] == 'place' and e[-1] == '.id':
+                    label += 1
+                elif s.rv['k'] == 'use' and c03.ssa_root(cfg, Operand(s.rv['o'])) in id_roots:
                     label += 1
     # the label store must be on every path
     writes = {b.i for b in body.blocks if not b.cleanup and any(s.k == 'assign' and effects.field_path(s.place) == 'lifecycle' for s in b.stmts)}
